@@ -127,9 +127,53 @@ def gen_walks(ctx, path, num):
     log("gen   %d TLC-generated walks (MC_SeqGen, -simulate) to replay into the real TracerState" % len(out))
 
 
-PROPS = {"C07": c07, "C01": c01, "C03": c03, "C06": c06, "C08": c08, "C09": c09, "C10": c10}
+STATE = "mon/MonState.tla"
+STATE_ASSUME = ["synthetic rounds satisfy RoundWellFormed (largest_ttl is 0 or within [first-ttl, 254]; live probes have consecutive TTLs from first-ttl), the TLC-checked output contract of publish_trace",
+                "float getters are logged in fixed point (x16 microseconds, x1000 percent) and compared with the exact rational by cross-multiplication; jinta is only required to be finite and non-negative",
+                "stddev is checked while the sums fit 32-bit integers: RTTs that are multiples of 100us up to 10ms, at most 20 samples per hop (sd family)"]
 
-MONITOR_OF = {"C07": (LOOP, "MonLoop_C07.cfg"), "C01": (LOOP, "MonLoop_C01.cfg"), "C03": (LOOP, "MonLoop_C03.cfg"), "C06": (LOOP, "MonLoop_C06.cfg"),
+
+def c05(ctx):
+    q = ctx.quick()
+    H = "mc/MC_HopStats.tla"
+    ctx.model(H, "MC_HopStats_a.cfg", workers=12)
+    ctx.model(H, "MC_HopStats_loss.cfg", workers=12)
+    ctx.model(H, "MC_HopStats_nat.cfg", workers=4)
+    if not q:
+        ctx.model(H, "MC_HopStats_b.cfg", workers=12, timeout=3000)
+    ctx.sim("state", 150 if q else 3000, STATE, "MonState_C05.cfg", subcmd="state")
+    ctx.sim("sd", 100 if q else 2000, STATE, "MonState_C05.cfg", subcmd="state", seed_off=1)
+    ctx.sim("loop", 150 if q else 3000, STATE, "MonState_C05.cfg", seed_off=2, nontrivial=has_genuine, extra_args=["--snap", "full"])
+    ctx.write_evidence("model_checking", "model: MC_HopStats - Apply*(rounds) = Agg(rounds) and the conservation laws for every sequence of rounds over the option alphabet of the instance; "
+                       "implementation: distinct (sample limit, flow limit, first-ttl class, nat) x (rounds, branches, length) plans of synthetic rounds + distinct simulated-network scenarios, every hop of every snapshot compared",
+                       assumptions=LOOP_ASSUME + STATE_ASSUME)
+
+
+def c15(ctx):
+    q = ctx.quick()
+    ctx.model("mc/MC_Flows.tla", "MC_Flows.cfg", workers=12)
+    ctx.sim("state", 200 if q else 4000, STATE, "MonState_C15.cfg", subcmd="state")
+    ctx.sim("loop", 200 if q else 4000, STATE, "MonState_C15.cfg", seed_off=2, nontrivial=has_genuine, extra_args=["--snap", "full"])
+    ctx.sim("fault", 100 if q else 1500, STATE, "MonState_C15.cfg", seed_off=3, nontrivial=has_fault, extra_args=["--snap", "full"])
+    ctx.write_evidence("model_checking", "model: MC_Flows - every sequence of registrations of every flow over the alphabet (dense ids, bound, agreement, monotone extension); "
+                       "implementation: distinct plans / scenarios (ECMP branches, unknown hops, failed probes, first-ttl > 1, max-flows 1..64), registry and per-flow statistics compared after every round",
+                       assumptions=LOOP_ASSUME + STATE_ASSUME)
+
+
+def c19(ctx):
+    q = ctx.quick()
+    ctx.model("mc/MC_Nat.tla", "MC_Nat.cfg", workers=4)
+    ctx.model("mc/MC_HopStats.tla", "MC_HopStats_nat.cfg", workers=4)
+    ctx.sim("nat", 250 if q else 5000, STATE, "MonState_C19.cfg", nontrivial=has_genuine)
+    ctx.sim("state", 100 if q else 2000, STATE, "MonState_C19.cfg", subcmd="state", seed_off=1)
+    ctx.write_evidence("model_checking", "model: MC_Nat - the per-round fold equals the declarative statement for every path of 6 hops with <= 3 rewriting devices and every set of responding hops; "
+                       "implementation: distinct NAT scenarios (device positions, silent hops, port directions, sizes) over the real IPv4 codec, statuses compared with simulator ground truth",
+                       assumptions=LOOP_ASSUME + ["the simulated translating device rewrites the quoted UDP checksum as a real NAT does (recomputed for the translated source) and restores addresses/ports in the quotation"])
+
+
+PROPS = {"C05": c05, "C15": c15, "C19": c19, "C07": c07, "C01": c01, "C03": c03, "C06": c06, "C08": c08, "C09": c09, "C10": c10}
+
+MONITOR_OF = {"C05": (STATE, "MonState_C05.cfg"), "C15": (STATE, "MonState_C15.cfg"), "C19": (STATE, "MonState_C19.cfg"), "C07": (LOOP, "MonLoop_C07.cfg"), "C01": (LOOP, "MonLoop_C01.cfg"), "C03": (LOOP, "MonLoop_C03.cfg"), "C06": (LOOP, "MonLoop_C06.cfg"),
               "C08": (LOOP, "MonLoop_C08.cfg"), "C09": (LOOP, "MonLoop_C09.cfg"), "C10": (LOOP, "MonLoop_C10.cfg")}
 
 
